@@ -146,3 +146,11 @@ Example manual_nonvacuous :
   m_frames f = [Some (frame 0 [104%N]); Some (frame 1 [104%N]); Some (frame 1 [120%N]); Some (frame 2 [120%N]); Some (frame 0 [100%N]); None]
   /\ last_set [104%N] ops1 = [120%N].
 Proof. vm_compute. split; reflexivity. Qed.
+(* the width hypotheses of the screen theorems hold for that run on a 20-column terminal *)
+Example screen_hypotheses_hold :
+  1 <= 20 /\ fits 20 [104%N] /\ fits 20 [100%N] /\ Forall (act_ok (fits 20)) [ASet [120%N]; AWork 250; ASet [121%N]].
+Proof. unfold fits. cbn. repeat split; try lia. repeat constructor; cbn; lia. Qed.
+Example screen_instance :
+  let f := run_auto 0 100 [104%N] [100%N] [ASet [120%N]; AWork 250; ASet [121%N]] [true; true; false; true; true; false] in
+  rows (feed 20 term_init (flat_map emits_of_write (map snd (writes f)))) = [frame 0 [100%N]; []].
+Proof. vm_compute. reflexivity. Qed.
